@@ -7,6 +7,7 @@ import Compress.Drv.XFlateReader
 import Compress.Drv.Meta
 import Compress.Drv.XFlateOpen
 import Compress.Drv.XFlateWriter
+import Compress.Drv.Prefix
 
 open Compress.Util Compress.Drv
 
@@ -22,6 +23,11 @@ def processLine (line : String) : String :=
       | "xr" => handleXr kv
       | "xo" => handleXo kv
       | "xw" => handleXw kv
+      | "gp" => handleGp kv
+      | "gl" => handleGl kv
+      | "dec" => handleDec kv
+      | "enc" => handleEnc kv
+      | "rng" => handleRng kv
       | "menc" => handleMenc kv
       | "mdec" => handleMdec kv
       | "mrs" => handleMrs kv
